@@ -19,12 +19,27 @@ COMMON_NOTE = ('Trusted: the extractor and rewrite rules R0-R16 (function bodies
                'Machine arithmetic: clocks < 2^62, event counters < 2^63. exit 2 = undecided, never an alarm.')
 
 TEXT = {
+    'C01': _t('Verus proves on the extracted real functions (async erased, sockets stubbed), for any number of links and all inputs: the per-link queue is FIFO and pairs each datagram with its sequence number and time; '
+              'take_batch / drain return exactly the queued bytes in order and register exactly the tracked sequence numbers; send_all_datagrams hands every datagram to the socket once, in order, or returns Err (ghost wire log, '
+              'short sendmmsg results handled, termination proved); forward_via_connection touches only the selected link, appends the unchanged bytes there (or the batch was flushed) and leaves < 32 queued when a socket exists; '
+              'duplicate probes go only to stall-gated connected links other than the selected one, identical bytes, exactly when the per-link counter reaches 100; a flush tick empties every queue that has a socket.',
+              COMMON_NOTE + ' Out of reach: the 15 ms timer itself and the interleaving of event-loop arms (scheduling); sockets are stubs (send_batch: Ok(n) => n <= offered).',
+              'deductive verification (Verus) of extracted real functions with ghost wire logs and whole-slice frame postconditions', 'DESIGN.md 8 C01'),
     'C02': _t('Verus proves, for all states and all sequence numbers (no bound on history length: one-step contracts + invariant count == |packet log|), that every accounting '
               'function of a link (register, cumulative ACK incl. the <=64 fast path and the retain path, per-packet SRTLA ACK, NAK, the three resets, take_batch) keeps the '
               'in-flight count equal to the size of the set of held sequence numbers, retires exactly the stated set, leaves the link untouched for sequence numbers it does not hold, '
               'and that a cumulative ACK leaves nothing at or below it (independent of earlier ACKs, via the log-above-high-water invariant).',
               COMMON_NOTE + ' Dispatch across links (arrival link first, then one other holder) is covered by the shell unit when built.',
               'deductive verification (Verus) of extracted real functions: representation invariant + exact set-valued postconditions', 'DESIGN.md 8 C02'),
+    'C04': _t('Verus proves for any number of links, both modes, every configuration and packet kind: both selectors (incl. the hysteresis return) and select_connection_idx return only an uplink that is schedulable, '
+              'not timed out and not stall-gated on the post-selection state; select_best_quality_idx never returns a registering, disconnected or stall-gated link; and at the single call site that routes stream data '
+              '(handle_srt_packet -> forward_via_connection, after the priority override) the chosen uplink is eligible. Duplicate probes are confined to gated links by the frame of send_stall_probes.',
+              COMMON_NOTE + ' A genuine defect found by this check (override onto gated / timed-out links) was repaired in /repo (fix: commit 6b49631).',
+              'deductive verification (Verus): eligibility postconditions on the schedulers + tagged assertion at the routing call site', 'DESIGN.md 8 C04'),
+    'C05': _t('Verus proves: the sequence tracker remembers a carrier exactly while the slot holds the same sequence number and is not older than 5000 ms, insert overwrites exactly one slot, remove_connection purges exactly that link; '
+              'attribute_nak (any number of links, distinct ids) charges at most one link, only a holder, exactly -100 floored at 1000 / one loss count / one in-flight slot, changes nothing for an unknown NAK, and while the tracker '
+              'remembers a carrier that is present no other link can be charged (no fall-through); the tracker records the carrier of the unique copy at queue time and probes never touch it.',
+              COMMON_NOTE, 'deductive verification (Verus) of extracted real functions; bit-vector lemma for the ring index', 'DESIGN.md 8 C05'),
     'C06': _t('Verus proves for every window value and every in-flight count in 0..i32::MAX: range [1000,60000] preserved by every function taking the window, start/reset value 20000, '
               'NAK = exactly -100 floored at 1000 (never increases), earned SRTLA ACK = +29 capped only when in-flight*1000 (saturating) exceeds the window (never decreases), global +1 capped, '
               'fast-recovery entered only at <= 2000 and left only at >= 12000 or by reset. Time-based recovery (float cast) is decided by Kani on the real function.',
@@ -40,6 +55,17 @@ TEXT = {
               'every reset returns the link to window 20000, zero in-flight, Registering; REG3 clean-up enters Warming with zero in-flight.',
               COMMON_NOTE + ' Out of reach: "connected again within 30 s" and the housekeeping loop itself (liveness over the network).',
               'deductive verification (Verus) of extracted real functions', 'DESIGN.md 8 C08'),
+    'C09': _t('Verus proves for every byte string (any length) and every link state: process_uplink_packet returns Ok, forwards exactly the datagram itself (unchanged) iff it has >= 2 bytes and is not REG_NGP/REG2/REG3/REG_ERR/SRTLA-ACK/keepalive, '
+              'never forwards internal ones; every non-registration datagram stamps last_received with the clock value read; delivery proof changes only for a keepalive echo answered while a probe was outstanding (or an earned SRTLA ACK in the core); '
+              'connected flips to true only on REG3; the ACK/NAK/SRTLA-ACK lists handed on are exactly the parsed lists; process_connection_events sends every forwarded datagram to the client once, in order, and nothing while no client is known. '
+              'Panic freedom of the whole path (parsers, dispatcher, attribution) is a built-in obligation.',
+              COMMON_NOTE + ' UdpSocket::send_to / try_send_to are stubs; delivery by the OS is not modelled.',
+              'deductive verification (Verus) of extracted real functions against byte-level spec functions', 'DESIGN.md 8 C09'),
+    'C10': _t('Verus proves: score == window / (in-flight + queued + 1) (saturating, integer division); the classic selector returns an eligible link of maximal score, the first such link, None only if no candidate scores >= 0; '
+              'window rules exactly +29 (only when in-flight*1000 exceeds the window), +1 on every connected link once per SRTLA-acknowledged number, -100 per charged NAK, bounds 1000..60000; '
+              'and in classic mode handle_srt_packet routes every packet kind (retransmit-flagged, inside a critical window) to the scheduler\'s choice.',
+              COMMON_NOTE + ' A genuine defect found by this check (quality override applied in classic mode) was repaired in /repo (fix: commit 49c1b48). "No time-based recovery in classic" is a syntactic audit of the single call site.',
+              'deductive verification (Verus): argmax-first postcondition with loop invariant, exact-delta window contracts, tagged routing assertion', 'DESIGN.md 8 C10'),
     'C12': _t('Verus proves for any number of links, both modes, every configuration: select_connection_idx and everything it calls (stall gate, pull and latch updates, quality cache refresh, both selectors) '
               'leave every field outside {stall flags/latches/counters, conn_timeout_ms, quality_cache} of every link unchanged (frame predicate generated from the struct definition, so new fields are in the frame by default), '
               'and with the guard off every flag and latch is cleared.',
